@@ -578,7 +578,10 @@ def _calculate_transitions_matrix(events: pd.DataFrame, n_sites: int) -> np.ndar
         events[['start site', 'destination site']], return_counts=True, axis=0
     )
     start_idx, stop_idx = idx.T
-    transitions[start_idx, stop_idx] = counts
+    # Events from or to no site (NOSITE) are not transitions between two sites,
+    # without this they would be counted for the last site (index -1)
+    at_site = (start_idx != NOSITE) & (stop_idx != NOSITE)
+    transitions[start_idx[at_site], stop_idx[at_site]] = counts[at_site]
     return transitions
 
 
